@@ -36,7 +36,7 @@ TOKEN = re.compile(
     | (?P<str>"(?:[^"\\]|\\.)*")
     | (?P<char>'(?:[^'\\]|\\.)')
     | (?P<life>'[A-Za-z_][A-Za-z0-9_]*)
-    | (?P<id>[A-Za-z_][A-Za-z0-9_]*)
+    | (?P<id>[^\W\d]\w*)
     | (?P<op>::|->|=>|==|!=|<=|>=|&&|\|\||<<=|>>=|<<|>>|\+=|-=|\*=|\|=|&=|\.\.=|\.\.|[-+*/%|^&!<>=.,;:(){}\[\]?#@])
     )""",
     re.X,
@@ -218,6 +218,9 @@ class Parser:
         if self.eat_kw("mut"):
             return self.pattern()
         t = self.peek()
+        if t == ("op", ".."):
+            self.take()
+            return ("prest",)
         if t[0] == "num":
             self.take()
             if self.at_op("..="):
